@@ -4,6 +4,7 @@ package main
 
 import (
 	"fmt"
+	"strings"
 	"go/ast"
 	"go/token"
 	"sort"
@@ -16,6 +17,7 @@ type Loop struct {
 	Blocks  map[*ssa.BasicBlock]bool
 	Ordinal int // 1-based, source order
 	Pos     token.Pos
+	BodyPos token.Pos // just inside the loop body: scope position for resolving names in invariants
 }
 
 type FuncInfo struct {
@@ -121,6 +123,12 @@ func (w *World) funcInfo(fn *ssa.Function) *FuncInfo {
 		if best >= 0 {
 			lp.Ordinal = best + 1
 			lp.Pos = astLoops[best].Pos()
+			switch s := astLoops[best].(type) {
+			case *ast.ForStmt:
+				lp.BodyPos = s.Body.Lbrace + 1
+			case *ast.RangeStmt:
+				lp.BodyPos = s.Body.Lbrace + 1
+			}
 		}
 	}
 	// fallback / collision handling: order by header index
@@ -144,6 +152,30 @@ func (w *World) funcInfo(fn *ssa.Function) *FuncInfo {
 	fi.NLoops = len(lps)
 	funcInfoCache[fn] = fi
 	return fi
+}
+
+// cellAt resolves a source name to its cell using the lexical scope at position pos.
+func (w *World) cellAt(fi *FuncInfo, name string, pos token.Pos) (*ssa.Alloc, error) {
+	if pos.IsValid() && !strings.Contains(name, "#") && len(fi.Cells[name]) > 1 {
+		var pkgPath string
+		if fi.Fn.Pkg != nil {
+			pkgPath = fi.Fn.Pkg.Pkg.Path()
+		} else if fi.Fn.Parent() != nil && fi.Fn.Parent().Pkg != nil {
+			pkgPath = fi.Fn.Parent().Pkg.Pkg.Path()
+		}
+		if pp := w.PPkgs[pkgPath]; pp != nil && pp.Types != nil {
+			if sc := pp.Types.Scope().Innermost(pos); sc != nil {
+				if _, obj := sc.LookupParent(name, pos); obj != nil {
+					for _, a := range fi.Cells[name] {
+						if a.Pos() == obj.Pos() {
+							return a, nil
+						}
+					}
+				}
+			}
+		}
+	}
+	return fi.cell(name)
 }
 
 func (fi *FuncInfo) cell(name string) (*ssa.Alloc, error) {
